@@ -32,6 +32,8 @@ type aclCase struct {
 	Fill  int `json:"fill,omitempty"`
 	FillA int `json:"fill_a,omitempty"`
 	FillB int `json:"fill_b,omitempty"`
+	// SeqDev: the IOS device prints sequence numbers in front of its ACL entries (IOS-XE)
+	SeqDev bool `json:"seq_dev,omitempty"`
 }
 
 func asaConfig(name string, ls []absLine) string {
@@ -49,12 +51,17 @@ func asaConfig(name string, ls []absLine) string {
 	return sb.String()
 }
 
-func iosConfig(name string, ls []absLine) string {
+// iosConfig: seq = the device is an IOS-XE (16.12 and later) that shows the sequence number of every ACL entry
+func iosConfig(name string, ls []absLine, seq bool) string {
 	var sb strings.Builder
 	if len(ls) > 0 {
 		fmt.Fprintf(&sb, "ip access-list extended %s\n", name)
-		for _, l := range ls {
-			fmt.Fprintf(&sb, " %s\n", l.body(true))
+		for i, l := range ls {
+			if seq {
+				fmt.Fprintf(&sb, " %d %s\n", 10*(i+1), l.body(true))
+			} else {
+				fmt.Fprintf(&sb, " %s\n", l.body(true))
+			}
 		}
 	}
 	sb.WriteString("interface Ethernet0\n")
@@ -190,11 +197,13 @@ func linesByKeys(t *keyTable, all []absLine, ios bool, keys string) []absLine {
 	return out
 }
 
-func config(backend string, ls []absLine) string {
+func config(backend string, ls []absLine) string { return devConfig(backend, ls, false) }
+
+func devConfig(backend string, ls []absLine, seq bool) string {
 	if backend == "asa" {
 		return asaConfig("inside_in", ls)
 	}
-	return iosConfig("e0_in", ls)
+	return iosConfig("e0_in", ls, seq)
 }
 
 func model(backend string) string {
@@ -264,7 +273,7 @@ func run(ctx *Ctx) *Result {
 				common = true
 			}
 		}
-		devText, spocText := config(c.Backend, c.A), config(c.Backend, c.B)
+		devText, spocText := devConfig(c.Backend, c.A, c.SeqDev), config(c.Backend, c.B)
 		out, errOut, status, pan := runDrc(model(c.Backend), devText, spocText)
 		canon := c.Backend + "\n" + devText + "--\n" + spocText
 		if pan != "" || status != 0 {
@@ -361,7 +370,7 @@ func run(ctx *Ctx) *Result {
 		if prop == "C01" || prop == "C02" {
 			// second compare on the executed result
 			fin := linesByKeys(t, append(append([]absLine{}, c.A...), c.B...), ios, f["impl.finalkeys"])
-			out2, _, st2, pan2 := runDrc(model(c.Backend), config(c.Backend, fin), spocText)
+			out2, _, st2, pan2 := runDrc(model(c.Backend), devConfig(c.Backend, fin, c.SeqDev), spocText)
 			if pan2 != "" || st2 != 0 || strings.TrimSpace(out2) != "" {
 				res.Fail(map[string]any{"pred": "second_compare_not_empty", "backend": c.Backend, "suppressed_move_at_remark": remarkSuppr},
 					"second compare of the executed result reports changes: "+out2, c0)
@@ -375,7 +384,7 @@ func run(ctx *Ctx) *Result {
 			states := strings.Split(f["impl.states"], ";")
 			for k, st := range states[:len(states)-1] {
 				mid := linesByKeys(t, append(append([]absLine{}, c.A...), c.B...), ios, st)
-				out2, _, st2, pan2 := runDrc(model(c.Backend), config(c.Backend, mid), spocText)
+				out2, _, st2, pan2 := runDrc(model(c.Backend), devConfig(c.Backend, mid, c.SeqDev), spocText)
 				res.Count("resume-cuts")
 				if pan2 != "" || st2 != 0 {
 					res.Fail(map[string]any{"pred": "resume_drc_failed", "backend": c.Backend}, fmt.Sprintf("cut %d: drc failed: %s", k, pan2), c0)
@@ -455,7 +464,12 @@ func run(ctx *Ctx) *Result {
 			a, b = genTwoSplitsMove(r)
 			res.Count(be + ":template:two-splits-move-between-lower-parts")
 		}
-		runCase(aclCase{Backend: be, A: a, B: b})
+		c := aclCase{Backend: be, A: a, B: b}
+		if be == "ios" && r.Chance(30) {
+			c.SeqDev = true
+			res.Count("ios:device-shows-sequence-numbers")
+		}
+		runCase(c)
 	}
 	return res
 }
